@@ -261,6 +261,8 @@ const hardFactor = 6
 
 var SlowCases int64
 
+var traceSlow = os.Getenv("VERIF_TRACE_SLOW") != ""
+
 func guarded(f func() error, d time.Duration) (err error, ok bool) {
 	done := make(chan error, 1)
 	go func() {
@@ -277,6 +279,9 @@ func guarded(f func() error, d time.Duration) (err error, ok bool) {
 	for {
 		select {
 		case err = <-done:
+			if traceSlow && time.Since(start) > 500*time.Millisecond {
+				fmt.Fprintf(os.Stderr, "VERIF-SLOW wall=%v cpu=%v\n", time.Since(start), processCPU()-cpu0)
+			}
 			if time.Since(start) >= d {
 				atomic.AddInt64(&SlowCases, 1)
 			}
